@@ -123,6 +123,8 @@ def eigh_formula():
     out.append(ob("C18.eigh.formula.offdiag", st, backend=be, wall=wl, witness=mod, functions=["linalg_utils._eigh_jvp"], detail=det or "F_ij = 1/(w_j - w_i) for |w_j - w_i| >= 1e-5"))
     st, be, det, mod, wl = discharge(dict(hyps=[ey.t == 1, wi.t == wj.t], goal=F.t == 0), 20000)
     out.append(ob("C18.eigh.formula.diag", st, backend=be, wall=wl, witness=mod, functions=["linalg_utils._eigh_jvp"], detail=det or "F_ii = 0"))
+    if any(o["status"] == REFUTED for o in out):
+        _eigh_native_replay(out)
     # the contraction, Engine B
     from vc.jxvc import harness as H
     from vc.jxvc.interp import evaluate
@@ -141,6 +143,29 @@ def eigh_formula():
                           note="dw = diag(V^T A' V) (real V)"))
     out.append(H.identity("C18.eigh.formula.dv", dv, V.dot(Fm * M), kind="bounded", functions=["linalg_utils._eigh_jvp_jitted_nob"], inputs=inp, t0=t0, note="dV = V (F o V^T A' V)"))
     return out
+
+
+def _eigh_native_replay(out):
+    """native replay of a refuted F-matrix clause: jax.jvp of the real _eigh on a non-degenerate symmetric matrix against the first-order
+    perturbation formulas dw_i = (V^T A' V)_ii, dV = V (F o V^T A' V), F_ij = 1/(w_j - w_i)"""
+    from vc.jxvc import harness as H
+    H.setup_repo()
+    import jax
+    import jax.numpy as jnp
+    from ad_afqmc import linalg_utils
+    rng = np.random.default_rng(3)
+    n = 4
+    A = rng.normal(size=(n, n)); A = A + A.T + np.diag(3.0 * np.arange(n))
+    dA = rng.normal(size=(n, n)); dA = dA + dA.T
+    (w, v), (dw, dv) = jax.jvp(linalg_utils._eigh, (jnp.asarray(A),), (jnp.asarray(dA),))
+    w, v, dw, dv = map(np.asarray, (w, v, dw, dv))
+    M = v.T @ dA @ v
+    Fm = np.array([[0.0 if i == j else 1.0 / (w[j] - w[i]) for j in range(n)] for i in range(n)])
+    dev = float(max(np.abs(dv - v @ (Fm * M)).max(), np.abs(dw - np.diag(M)).max()))
+    for o in out:
+        if o["status"] == REFUTED:
+            o["replayed"] = bool(dev > 1e-8)
+            o["witness"] = dict(solver_model=o.get("witness"), native=dict(A=A.tolist(), dA=dA.tolist(), max_abs_deviation_from_perturbation_formula=dev))
 
 
 class _Cap(Exception):
